@@ -647,6 +647,17 @@ func (w *World) recordOf(root *ssa.Function, v ssa.Value) ssa.Value {
 				return nil
 			}
 			v = u
+		case *ssa.Call, *ssa.Extract:
+			// built by a constructor helper
+			_, h, idx := w.asCallResult(x)
+			if h == nil || !w.transparent(h) || errorResultIndex(h) == idx {
+				return nil
+			}
+			sv := w.successValue(h, idx)
+			if sv == nil {
+				return nil
+			}
+			v = sv
 		default:
 			return nil
 		}
@@ -1209,6 +1220,30 @@ func (w *World) recordField(root *ssa.Function, v ssa.Value) ssa.Value {
 		return nil
 	}
 	vals := FieldStores(alloc.Parent(), alloc)[name]
+	if len(vals) == 0 {
+		// filled in later, once, by a method of the record (a phase of the draft): that store, when it comes before
+		// this read on every path of the root's frame
+		var only *ssa.Store
+		n := 0
+		for _, a := range w.FieldAccesses(named, name) {
+			switch a.Kind {
+			case "write":
+				n++
+				only, _ = a.Instr.(*ssa.Store)
+			case "addr", "addrcall", "mapwrite", "mapdelete":
+				n += 2
+			}
+		}
+		rd, isIns := v.(ssa.Instruction)
+		if n != 1 || only == nil || !isIns {
+			return nil
+		}
+		fa, isFA := only.Addr.(*ssa.FieldAddr)
+		if !isFA || w.recordOf(root, fa.X) != ssa.Value(alloc) || !w.DeepDominates(root, only, rd) {
+			return nil
+		}
+		vals = []ssa.Value{only.Val}
+	}
 	if len(vals) != 1 {
 		return nil
 	}
